@@ -723,7 +723,7 @@ def oracle_state(ck, ctx, data, root, reads, d1904, pie_write, baseline_xsd):
                 if not (len(got) == len(exp) and all(len(a) == len(b) and all(label_matches(x, y, d1904, quirks) for x, y in zip(a, b)) for a, b in zip(got, exp))):
                     problems.append(("categories", "%s: levels %r, supplied (leaf level first) %r" % (where, got[:3], exp[:3])))
     # validity
-    for sig, msg in xsd_problems(root):
+    for sig, msg in xsd_problems(root, data_without_series=not data["sers"]):
         if sig not in baseline_xsd:
             problems.append((sig, msg))
     for q in sorted(quirks):
@@ -733,7 +733,7 @@ def oracle_state(ck, ctx, data, root, reads, d1904, pie_write, baseline_xsd):
 
 QUIRK_TEXT = {
     "cr-in-string-becomes-lf": "a carriage return in a series name or category label comes back as a line feed (the writers paste text into an XML template; saxutils.escape leaves CR alone and the parser normalises it)",
-    "empty-category-label-reads-None": "a category whose label is the empty string (or None) is reported as the string 'None' (category.Category.__new__: pt.v.text is None for an empty c:v and str.__new__(cls, None) is 'None')",
+    "empty-category-label-reads-None": "a category whose label is the empty string (or None) is reported as the string 'None' (category.Category.__new__: pt.v.text is None for an empty c:v and str.__new__(cls, None) is 'None'; fixed in fc4e9fce, the signature stays as a regression guard)",
     "pie-writer-keeps-first-series-only": "a pie chart created from chart data with several series contains the first series only (_PieChartXmlWriter._ser_xml uses self._chart_data[0]); the other series are dropped without an error",
 }
 
@@ -750,7 +750,7 @@ def resolve_mc(root):
     return r
 
 
-def xsd_problems(root):
+def xsd_problems(root, data_without_series=False):
     sc = schema()
     doc = resolve_mc(root)
     if sc.validate(doc):
@@ -762,7 +762,7 @@ def xsd_problems(root):
         if el in ("axId", "crossAx") and attr == "val" and re.match(r"'-\d+' is not a valid value of the atomic type 'xs:unsignedInt'", rest):
             sig = "xsd:negative-axis-id"
             msg = "c:axId / c:crossAx val is negative in the writer's template; the schema type is xsd:unsignedInt (%s)" % e.message[:160]
-        elif not xcharts(root) and ((el in ("catAx", "valAx", "dateAx", "serAx", "dTable", "spPr", "extLst") and "This element is not expected" in rest) or (el == "plotArea" and "Missing child element" in rest)):
+        elif data_without_series and not xcharts(root) and ((el in ("catAx", "valAx", "dateAx", "serAx", "dTable", "spPr", "extLst") and "This element is not expected" in rest) or (el == "plotArea" and "Missing child element" in rest)):
             sig = "xsd:plotArea-without-plot"
             msg = "replace_data with chart data that has no series removes every xChart: c:plotArea is left without any (the schema requires at least one): %s" % e.message[:200]
         else:
@@ -945,7 +945,10 @@ def cat_shapes(tier, ti, pie):
     if pie:
         shapes = [(n, dict(s, nser=1)) for n, s in shapes if n != "no-series"]
     if tier == "thorough":
-        more = [("random", {})] * 18 + [("multi-r", {"cats": "multi"})] * 6 + [("dates", {"cats": "date"})] * 3 + [("numeric", {"cats": "num"})] * 3
+        more = ([("random", {})] * 100 + [("multi-r", {"cats": "multi"})] * 40 + [("dates", {"cats": "date"})] * 20
+                + [("numeric", {"cats": "num"})] * 20 + [("holes", {"p_none": 0.6})] * 10
+                + [("big", {"nser": 50, "ncat": 300, "p_none": 0.02})] * (1 if ti % 6 == 0 else 0)
+                + [("big", {"nser": 20, "cats": "multi", "depth": 4, "top": 4, "fan": 4})])
         shapes += [(n, dict(s, nser=1)) for n, s in more] if pie else more
     return shapes
 
@@ -961,7 +964,7 @@ def xy_shapes(tier, ti):
         ("random", {}), ("random", {}), ("random", {}), ("random", {}), ("random", {}), ("random", {}),
     ]
     if tier == "thorough":
-        shapes += [("random", {})] * 30
+        shapes += [("random", {})] * 180 + [("big", {"nser": 50, "npts": 300, "p_none": 0.02})] * (1 if ti % 3 == 0 else 0)
     return shapes
 
 
@@ -1058,7 +1061,7 @@ def gen_cases(tier, rng, types):
             xcs = xcharts(etree.fromstring(ch.part.blob))
             first = localname(xcs[0]) if xcs else None
             fam = {"bubbleChart": "bub", "scatterChart": "xy"}.get(first, "cat")
-            reps = 2 if tier == "quick" else 6
+            reps = 2 if tier == "quick" else 24
             for _ in range(reps):
                 cases.append({"class": "corpus/%s" % first, "init": ["S", f, i], "ops": g_ops(rng, fam, rng.choice([1, 2, 3]), False)})
     return cases
@@ -1115,9 +1118,10 @@ def check_case(ck, case, deck, types_by_ct, report=True):
                     problems.append(("add-chart-raises", "add_chart raised %s" % msg))
             else:
                 prev_root = roots[ri - 1]
-                if not xcharts(prev_root):
+                has_new = len(case["ops"][k - 1]["sers"]) > 0
+                if not xcharts(prev_root) and (msg or "").startswith("IndexError"):
                     problems.append(("replace-data-on-chart-without-plot", "replace_data raises %s on a chart whose plots were all removed by an earlier replace_data with no series (Chart.chart_type indexes plots[0])" % msg))
-                elif not prev_root.xpath("//c:ser", namespaces=NSMAP):
+                elif xcharts(prev_root) and not prev_root.xpath("//c:ser", namespaces=NSMAP) and has_new and (msg or "").startswith("AttributeError"):
                     problems.append(("replace-data-on-chart-without-series", "replace_data raises %s on a chart that has no series (_add_cloned_sers clones plotArea.last_ser which is None)" % msg))
                 else:
                     problems.append(("replace-data-raises", "replace_data raised %s" % msg))
@@ -1220,3 +1224,11 @@ def replay(rec):
     for sig, what in problems:
         print("oracle:", sig, "-", what)
     return 0 if (not d and not problems) else 1
+
+
+CLAIM = {
+    "tech": "Coq proof over a Gallina model of the chart writers, the readers and replace_data as a state machine (all chart data, all category forests, all replace_data histories, arbitrary successor declarations) + extracted-model correspondence on real charts of every writable type and of the .pptx corpus + independent oracle on the XML and the read API incl. XSD validation",
+    "text": "23 theorems and 4 examples closed under the global context: series names, values (None positions, empty series), X values and bubble sizes read back as supplied; categories read back at every level, flattened_labels = root-to-leaf paths for ragged forests of any depth (level idx = first-leaf offset), numbers as Python's text, dates as the Excel serial (1900 leap-year quirk and 1904 system); c:idx / c:order unique after any sequence of replace_data (fold over operations); replace_data reports the new names, values and categories, keeps idx, order and every non-data child of surviving series, the date system and everything outside the xChart elements, removes exactly the last series of plotArea.sers and exactly the plots left without any. Where the model refutes the statement the witness is proved and replayed: pie writer keeps one series, carriage return becomes line feed, replace_data fails on charts without series or without plots, a double quote in a date number format breaks the date axis. The model is tied to chart/xmlwriter.py, data.py, category.py, series.py, plot.py and oxml/chart by ~700 (quick) / ~8300 (thorough) histories on all 29 chart types (list read off ChartXmlWriter) and the 95 corpus charts, comparing the skeleton re-read from ChartPart.blob and the read API state by state.",
+    "note": "numbers travel as the text str() gives and are compared as exact rationals of float(text); c:f references and the workbook are C08's, escaping of number formats and non-XML characters C05's; validity is judged by libxml2 on dml-chart.xsd after resolving mc:AlternateContent; formatting children and everything outside c:ser are opaque content hashes.",
+    "ref": "6/C07",
+}
